@@ -62,6 +62,7 @@ def main(argv=None):
         return 2
 
     rows = []  # evidence samples
+    strict_replay = set()  # harnesses whose native replay only counts when it panics at the reported harness location
     violations, known_hit, inconclusive, discharged = [], [], [], 0
     solver_time = 0.0
     funcs, stubs_used = set(), set()
@@ -95,7 +96,33 @@ def main(argv=None):
                "checks": r.nchecks, "covers_satisfied": r.covers.get("SATISFIED", 0), "time_s": round(r.time, 1),
                "bounds": h.bounds, "symbolic": h.sym, "enumerated": h.enum, "desc": h.desc, "expect": h.expect}
         cov_bad = r.covers.get("UNSATISFIABLE", 0) + r.covers.get("UNREACHABLE", 0)
-        if h.expect == "fail":
+        forbid = h.kv.get("forbid")
+        if h.expect == "fail" and forbid and r.status in ("failed", "success"):
+            # refusal-style obligation: the code under test is EXPECTED to panic on part of the input space (those failed checks are
+            # the refusals); the obligation is that the marker check(s) whose description contains `forbid` never fail.
+            refuse_in = [x for x in h.kv.get("refuse_in", "").split(",") if x]
+            # with refuse_in=<function-name substrings>, only panics inside those functions are refusals; a panic anywhere else
+            # (e.g. later, in a consumer of the accepted value) is a failure of the obligation as well
+            def is_bad(f):
+                return forbid in f["desc"] or (refuse_in and not any(x in f["func"] for x in refuse_in))
+            bad = [f for f in r.failed if is_bad(f)]
+            other = [f for f in r.failed if not is_bad(f)]
+            if bad:
+                violations.append((h, r, bad))
+                strict_replay.add(h.full)
+                row["verdict"] = "violation-candidate"
+                row["failed_checks"] = [fail_key(h, f) + f":{f['line']}" for f in bad][:8]
+            elif cov_bad or not r.covers.get("SATISFIED", 0):
+                inconclusive.append((h, "marker of the refusal obligation not reachable: vacuous"))
+                row["verdict"] = "inconclusive"
+            elif r.status == "failed" and other:
+                discharged += 1
+                row["verdict"] = "holds-within-bounds"
+                row["expected_refusals"] = len(other)
+            else:
+                inconclusive.append((h, "no refusal reached at all: the refusal obligation is vacuous"))
+                row["verdict"] = "inconclusive"
+        elif h.expect == "fail":
             if r.status == "failed":
                 if h.finding:
                     e = C.known_match(prop, h.finding)
@@ -219,9 +246,10 @@ def main(argv=None):
                 continue
             rep = None
             used = None
-            for t in tests[:4]:
+            for t in tests[:8]:
                 rep, rout = K.native_replay(h, t, timeout=(60 if getattr(h, 'hang', False) else 600),
-                                            fail_locs={(os.path.basename(f['file']), f['line']) for f in unknown})
+                                            fail_locs={(os.path.basename(f['file']), f['line']) for f in unknown},
+                                            strict=h.full in strict_replay)
                 used = t
                 if rep:
                     break
